@@ -181,6 +181,7 @@ KIND_SHEETS = [
     "background-image: url(data:image/png;base64,AAAA=); list-style: url(10.50.png) }",
     "@font-face { font-family: x; src: url(x.woff) format(\"woff\"), url(\"y z.ttf\"); unicode-range: U+0-7F, U+4??, U+26 }",
     ".i1 { margin: 10.5px !important; top: 0.5em ! important; left: 20.5% !IMPORTANT }",
+    ".e1 { width: expression(1 + 2); height: expression(a > b ~ c) }",
 ]
 
 
